@@ -31,6 +31,7 @@ class EFLRSet(LogicalRecord):
         self.set_name = set_name
         self._set_type_struct = write_struct_ident(self.set_type)  # used in the header
         self._eflr_item_list: list[EFLRItem] = []  # instances of EFLRItem registered with this EFLRSet instance
+        self.logical_file_sets: Optional[dict] = None  # structure of EFLRSets of the logical file this set is a part of
 
     def __str__(self) -> str:
         """Represent the EFLRSet instance as str."""
